@@ -179,9 +179,20 @@ Definition used_keys_ok (s : ca) : bool :=
                                           end
                              end) (ch_used ch)) (ca_children s).
 
+(** Every certified key of a class carries a certificate issued for that very key (C04: no key in use
+    without its certificate; theorem [kstep_keeps_cert_matches]). *)
+Definition ck_matches (k : ckey) : bool := c_key (k_cert k) =? k_id k.
+Definition cert_matches_ok (s : ca) : bool :=
+  forallb (fun '(_, rc) => match rc_keys rc with
+                           | KPending _ => true
+                           | KActive c | KRollPending _ c => ck_matches c
+                           | KRollNew n c => ck_matches n && ck_matches c
+                           | KRollOld c o => ck_matches c && ck_matches o
+                           end) (ca_classes s).
+
 Definition c04_ok (c : case) : bool :=
   mirror_ok (c_post c) (c_post_objs c) && products_ok (c_post c) (c_post_objs c)
-  && certs_disjoint_ok (c_post c) && used_keys_ok (c_post c).
+  && certs_disjoint_ok (c_post c) && used_keys_ok (c_post c) && cert_matches_ok (c_post c).
 
 (** Revocation (C03): whatever a key's set published before and does not publish any more (same name and
     serial) is on that key's revocation list afterwards, unless expired or the key no longer has a set. *)
